@@ -383,7 +383,7 @@ class Engine:
 
     def _conc(s, t):
         t = z3.simplify(t)
-        return t.as_string() if z3.is_string_value(t) else None
+        return pystr(t) if z3.is_string_value(t) else None
 
     def mk_strip(s, st, t):
         if s._conc(t) is not None:
@@ -689,7 +689,7 @@ class Engine:
             return VStr(z3.Concat(a.t, b.t))
         if isinstance(op, ast.Mult) and isinstance(a, VStr) and isinstance(b, VInt):
             av = z3.simplify(a.t)
-            if z3.is_string_value(av) and av.as_string() == " ":
+            if z3.is_string_value(av) and pystr(av) == " ":
                 if getattr(s.cur, "pad_obligation", False):
                     # the blank run between unit and value/description must not be empty
                     s.goal(st, "pad>=1@line%s" % getattr(node, "lineno", "?"), b.t >= 1, "safety", node,
@@ -716,7 +716,7 @@ class Engine:
             # symbolic format (fmt % n): opaque text depending on both
             f = z3.Function("py_fmt", S, PyObj, S)
             return VStr(f(fmt.t, s.to_obj(arg)))
-        f = ft.as_string()
+        f = pystr(ft)
         args = arg.items if isinstance(arg, VTuple) else [arg]
         parts, k, i = [], 0, 0
         buf = ""
@@ -742,7 +742,7 @@ class Engine:
                 buf += f[i]
                 i += 1
         parts.append(z3.StringVal(buf))
-        parts = [p for p in parts if not (z3.is_string_value(p) and p.as_string() == "")]
+        parts = [p for p in parts if not (z3.is_string_value(p) and pystr(p) == "")]
         if not parts:
             return VStr("")
         return VStr(parts[0] if len(parts) == 1 else z3.Concat(*parts))
@@ -887,7 +887,7 @@ class Engine:
             kt = z3.simplify(k.t) if isinstance(k, VStr) else None
             if kt is None or not z3.is_string_value(kt):
                 raise OutOfSubset("record field indexed with a symbolic key")
-            key = kt.as_string()
+            key = pystr(kt)
             if key not in v.mapping:
                 raise OutOfSubset("record key %r is not modelled" % key)
             return [(st, s.load(st, v.ref, v.mapping[key]))]
@@ -895,7 +895,7 @@ class Engine:
             if isinstance(k, VStr):
                 kt = z3.simplify(k.t)
                 if z3.is_string_value(kt):
-                    key = kt.as_string()
+                    key = pystr(kt)
                     if key in v.d:
                         return [(st, v.d[key])]
                     s.raise_(st, "KeyError", out, node)
